@@ -276,3 +276,14 @@ def c12_layout(ctx, case):
          "in double precision")
 def c12_single(ctx, case):
     _dt.single_body(ctx, case, _dt.TABLES["C12"])
+
+
+# ---- call-form invariance (documented parameter names) ----------------------------
+from vlib import kwcheck as _kw   # noqa: E402
+
+
+@sub("C12.keywords", strategy=_kw.kw_case(_kw.PROPS["C12"]), quick=200, thorough=4000,
+     doc="the same call with its trailing arguments given by their documented names (any split, any order) returns the same "
+         "result as the positional call, and every documented name is accepted: " + ", ".join(_kw.PROPS["C12"]))
+def c12_keywords(ctx, case):
+    _kw.body(ctx, case)
